@@ -42,7 +42,8 @@ func VerifC14_TreeSet() {
 	}
 	var c SetCursor
 	panicked, msg := verifrt.Catch(func() { c = ts.ToCursor() })
-	verifrt.Assert(!panicked, "C14 tree cursor: no panic creating a cursor ("+msg+")")
+	verifrt.Logf("panic message (if any): %v", msg) // not part of the label: executor and native wording differ
+	verifrt.Assert(!panicked, "C14 tree cursor: no panic creating a cursor")
 	verifrt.Drain(elems, c, forward, len(elems), "C14 tree cursor")
 }
 
